@@ -5,7 +5,7 @@
    - [copy_struct_data]: the data section of the destination is the source's, truncated or
      zero-extended to the destination's size (version skew rule);
    - [copy_struct_ptrs_tail]: pointer slots beyond the source's count are nulled. *)
-From CV Require Import Core.Builder Core.ReaderFacts Core.ArithFacts Core.BuilderFacts Core.AllocProofs Core.WritePtrProofs.
+From CV Require Import Core.Builder Core.ReaderFacts Core.ArithFacts Core.BuilderFacts Core.AllocProofs Core.WritePtrProofs Core.HeapProofs.
 From Coq Require Import ZifyBool ZifyNat.
 Open Scope Z_scope.
 
@@ -142,4 +142,194 @@ Proof.
   destruct (slice _ (p_off dst) _) as [dd| |]; cbn [bind]; try discriminate.
   cbv zeta. destruct (lift0 w _) as [w1| |]; cbn [bind]; try discriminate.
   intros _. now exists w1.
+Qed.
+
+(* ------------------------------------------------------------------ copyStruct: the whole struct *)
+(* slice without a bound on the segment length *)
+Lemma slice_in_range s base n :
+  0 <= base -> 0 <= n -> base + n <= zlen s -> base + n < 4294967296 -> slice s base n = Ok (sub s base n).
+Proof.
+  intros Hb Hn He Hl. unfold slice, addSizeUnchecked, sub. cbv zeta.
+  rewrite (u32_id (base + n)) by lia.
+  destruct (0 <=? base) eqn:E1; [|lia]. destruct (base <=? base + n) eqn:E2; [|lia].
+  destruct (base + n <=? zlen s) eqn:E3; [|lia].
+  cbn [andb]. replace (base + n - base) with n by lia. reflexivity.
+Qed.
+
+Lemma keeps_sub m m' R i base n :
+  keeps m m' R -> 0 <= i -> 0 <= base -> 0 <= n -> base + n <= zlen (mem m i) ->
+  (forall k, base <= k < base + n -> ~ R i k) ->
+  sub (mem m' i) base n = sub (mem m i) base n.
+Proof.
+  intros [K1 K2] Hi Hb Hn Hin HR. specialize (K1 i Hi). unfold sub.
+  apply nth_ext with (d := 0) (d' := 0).
+  - rewrite !firstn_length, !skipn_length. unfold zlen in *. lia.
+  - intros k Hk. rewrite firstn_length, skipn_length in Hk. unfold zlen in *.
+    rewrite !nth_firstn_lt by lia. rewrite !nth_skipn_add.
+    replace (Z.to_nat base + k)%nat with (Z.to_nat (base + Z.of_nat k)) by lia.
+    apply K2; auto; try lia. apply HR. lia.
+Qed.
+
+Lemma keeps_slice' m m' R i base n :
+  keeps m m' R -> 0 <= i -> 0 <= base -> 0 <= n -> base + n <= zlen (mem m i) -> base + n < 4294967296 ->
+  (forall k, base <= k < base + n -> ~ R i k) ->
+  slice (mem m' i) base n = slice (mem m i) base n.
+Proof.
+  intros K Hi Hb Hn Hin Hl HR. pose proof (proj1 K i Hi).
+  rewrite !slice_in_range by lia. f_equal. eapply keeps_sub; eauto.
+Qed.
+
+Lemma wrote_sub_same m m' sid addr bs :
+  wrote m m' sid addr bs -> sub (mem m' sid) addr (zlen bs) = bs.
+Proof. intros (W1 & W2 & W3 & _). rewrite W3. apply sub_write_same; lia. Qed.
+
+(* pointerAddress of a struct that lies inside an addressable segment *)
+Lemma pointerAddress_eq p j :
+  0 <= p_off p -> 0 <= DataSize (p_size p) -> 0 <= j ->
+  p_off p + DataSize (p_size p) + 8 * j <= maxSegmentSize ->
+  pointerAddress p j = p_off p + DataSize (p_size p) + 8 * j.
+Proof.
+  intros H1 H2 H3 H4. unfold pointerAddress, addSize, element. cbv zeta.
+  destruct (p_off p + DataSize (p_size p) >? maxSegmentSize) eqn:E1; [lia|].
+  destruct ((p_off p + DataSize (p_size p) + j * 8 >? maxSegmentSize) || (p_off p + DataSize (p_size p) + j * 8 <? 0)) eqn:E2; lia.
+Qed.
+
+(* fold with the list of processed elements *)
+Lemma fold_res_inv2 {A} (P : list Z -> A -> Prop) (f : A -> Z -> res A) l : forall done a a',
+  (forall dn x b b', P dn b -> In x l -> f b x = Ok b' -> P (dn ++ [x]) b') ->
+  P done a -> fold_res l a f = Ok a' -> P (done ++ l) a'.
+Proof.
+  induction l as [|x l IH]; intros done a a' Hf Ha H; cbn [fold_res] in H.
+  - apply Ok_inj in H. subst. now rewrite app_nil_r.
+  - destruct (f a x) as [b| |] eqn:E; cbn [bind] in H; try discriminate.
+    replace (done ++ x :: l) with ((done ++ [x]) ++ l) by (rewrite <- app_assoc; reflexivity).
+    eapply IH; [|eapply Hf; [exact Ha|left; reflexivity|exact E]|exact H].
+    intros dn y c c' Hc Hy. apply Hf; auto. now right.
+Qed.
+
+(* the exact footprint of a struct: its data section and its pointer slots *)
+Definition Rexact (p : Ptr) : Z -> Z -> Prop := fun i k =>
+  i = p_seg p /\
+  (p_off p <= k < p_off p + DataSize (p_size p) \/
+   exists j, 0 <= j < PointerCount (p_size p) /\ pointerAddress p j <= k < pointerAddress p j + 8).
+
+(* [copy_struct_ptrs]: copyStruct as a whole, for every source, arena and capacity.
+   (1) exact frame: among the bytes that existed, only the destination's data section and its
+       own pointer slots can change - in particular nothing is written for source pointers beyond
+       the destination's count (they are dropped) - and the source message is unchanged;
+   (2) every destination slot beyond the source's pointer count is null afterwards;
+   (3) the data section afterwards is the source's, truncated / zero-extended. *)
+Theorem copy_struct_ptrs fuel strict w dst l src w' :
+  inv (w_dst w) -> 0 <= p_seg dst < nsegs (w_dst w) -> wf_size (p_size dst) -> sz_ok src ->
+  p_valid dst = true -> p_valid src = true ->
+  0 <= p_off dst ->
+  p_off dst + DataSize (p_size dst) + 8 * PointerCount (p_size dst) <= zlen (mem (w_dst w) (p_seg dst)) ->
+  zlen (mem (w_dst w) (p_seg dst)) <= maxSegmentSize ->
+  zlen (nth (Z.to_nat (p_seg src)) (w_segs w l) []) < 4294967296 ->
+  copy_struct (S fuel) strict w dst l src = Ok w' ->
+  let seg := p_seg dst in
+  let srcData := sub (nth (Z.to_nat (p_seg src)) (w_segs w l) []) (p_off src) (DataSize (p_size src)) in
+  keeps (w_dst w) (w_dst w') (Rexact dst) /\ inv (w_dst w') /\ w_src w' = w_src w /\
+  (forall j, PointerCount (p_size src) <= j < PointerCount (p_size dst) ->
+     readRawPointer (mem (w_dst w') seg) (pointerAddress dst j) = Ok 0) /\
+  slice (mem (w_dst w') seg) (p_off dst) (DataSize (p_size dst)) =
+    Ok (resize_data srcData (Z.to_nat (DataSize (p_size dst)))).
+Proof.
+  intros Hinv Hd Hds Hsz Hvd Hvs Ho Hin Hmax Hsl. cbv zeta.
+  specialize (Hsz Hvs).
+  set (m := w_dst w) in *. set (seg := p_seg dst) in *.
+  set (dsz := DataSize (p_size dst)) in *. set (nd := PointerCount (p_size dst)) in *.
+  set (ns := PointerCount (p_size src)) in *.
+  destruct Hds as [[Hd1 Hd2] [Hp1 Hp2]]. fold dsz in Hd1, Hd2. fold nd in Hp1, Hp2.
+  assert (Hns : 0 <= ns) by (destruct Hsz as [_ [X _]]; exact X).
+  unfold maxSegmentSize in Hmax.
+  assert (PA : forall j, 0 <= j < nd -> pointerAddress dst j = p_off dst + dsz + 8 * j).
+  { intros j Hj. apply pointerAddress_eq; auto; unfold maxSegmentSize; fold dsz; lia. }
+  intros H.
+  (* the data phase, as in copy_struct_data *)
+  destruct (copy_struct_starts_with_data _ _ _ _ _ _ _ Hvd Hvs H) as [w1 E1].
+  assert (Hsd : 0 <= DataSize (p_size src) < 4294967296) by (destruct Hsz as [[X Y] _]; lia).
+  destruct (copy_struct_data w dst l src w1 ltac:(lia) ltac:(fold m seg; lia) ltac:(fold dsz; lia) Hsd Hsl E1)
+    as (W1 & S1 & Src1 & _).
+  cbv zeta in W1, S1. fold m seg dsz in W1, S1.
+  set (new := resize_data _ (Z.to_nat dsz)) in *.
+  assert (Ln : zlen new = dsz) by (unfold zlen, new; rewrite resize_data_length; lia).
+  (* unfold copy_struct along the same path *)
+  cbn [copy_struct] in H. rewrite Hvd, Hvs in H. cbn [negb] in H.
+  unfold copy_data_phase in E1.
+  destruct (slice _ (p_off src) _) as [sd| |]; cbn [bind] in H, E1; try discriminate.
+  destruct (slice _ (p_off dst) _) as [dd| |]; cbn [bind] in H, E1; try discriminate.
+  cbv zeta in E1. rewrite E1 in H. cbn [bind] in H.
+  match type of H with bind ?X _ = _ => destruct X as [w2| |] eqn:E2; cbn [bind] in H; try discriminate end.
+  destruct (frame_all fuel) as [Pwp _].
+  (* state invariant shared by both loops *)
+  set (I := fun wa : world =>
+              G m (w_src w) wa (Rexact dst) /\
+              sub (mem (w_dst wa) seg) (p_off dst) dsz = new).
+  assert (I1 : I w1).
+  { split.
+    - pose proof (wrote_inv _ _ _ _ _ W1 ltac:(lia) Hinv) as Iv. pose proof (wrote_keeps _ _ _ _ _ W1 ltac:(lia)) as K.
+      destruct W1 as (_ & _ & _ & _ & _ & _ & W7 & _).
+      unfold G. split; [|split; [exact Iv|split; [unfold nsegs; lia|exact Src1]]].
+      eapply keeps_weaken; [|exact K]. intros i k _ _ [-> X]. split; auto. left. lia.
+    - rewrite <- Ln. apply (wrote_sub_same m). exact W1. }
+  (* one pointer-word step keeps the invariant *)
+  assert (Step : forall wa wb j, 0 <= j < nd -> I wa ->
+            G (w_dst wa) (w_src wa) wb (Rword seg (pointerAddress dst j)) -> I wb).
+  { intros wa wb j Hj [GA SA] GS. split.
+    - eapply G_step; [exact GA|exact GS|]. intros i k _ _ [-> X]. split; auto. right. exists j. split; [lia|exact X].
+    - rewrite <- SA. destruct GA as (KA & _). destruct GS as (KS & _).
+      eapply keeps_sub; [exact KS|lia|lia|lia| |].
+      + pose proof (proj1 KA seg ltac:(lia)). fold m in H0. lia.
+      + intros k Hk [_ X]. rewrite PA in X by lia. lia. }
+  assert (I2 : I w2).
+  { revert E2. apply fold_res_inv with (P := I); [|exact I1].
+    intros j wa wb Hj IA Hstep. apply in_iota in Hj.
+    destruct (readPtr strict (w_segs wa l) (w_rl wa l) (p_seg src) _ (pointerAddress src j) (p_depth src)) as [r rl'] eqn:ER.
+    destruct r as [q| |]; cbn [bind] in Hstep; try discriminate.
+    pose proof (readPtr_size_wf _ _ _ _ _ _ _ _ _ ER) as Hq.
+    destruct (w_set_rl_dst wa l rl') as (T1 & T2 & T3).
+    assert (IA2 : I (w_set_rl wa l rl')).
+    { destruct IA as [GA SA]. split; [eapply G_same_segs; eauto|].
+      unfold mem, get_seg in *. rewrite T1. exact SA. }
+    apply (Step (w_set_rl wa l rl') wb j); [lia|exact IA2|].
+    apply (Pwp strict _ seg (pointerAddress dst j) l q true wb); auto.
+    - apply IA2.
+    - destruct IA2 as [(_ & _ & NA & _) _]. fold m in Hd. lia.
+    - intros X. cbn in X. discriminate. }
+  (* the null tail: processed slots are null *)
+  set (J := fun (dn : list Z) (wa : world) =>
+              I wa /\ forall j, In j dn -> ns <= j < nd /\
+                                 readRawPointer (mem (w_dst wa) seg) (pointerAddress dst j) = Ok 0).
+  assert (JF : J ([] ++ map (fun k => ns + k) (iota (Z.to_nat (nd - ns)))) w').
+  { revert H. apply fold_res_inv2 with (P := J).
+    - intros dn x wa wb [IA ZA] Hx Hstep.
+      apply in_map_iff in Hx. destruct Hx as (k0 & <- & Hk0). apply in_iota in Hk0.
+      unfold lift0 in Hstep. fold seg in Hstep.
+      destruct (writeRawPointer (w_dst wa) seg _ 0) as [mb| |] eqn:EWB; cbn [bind] in Hstep; try discriminate.
+      apply Ok_inj in Hstep. subst wb.
+      assert (GW := G_write wa seg _ 0 mb ltac:(apply IA) ltac:(lia) EWB).
+      assert (IB : I (w_set_dst wa mb)) by (apply (Step wa _ (ns + k0)); auto; lia).
+      split; [exact IB|]. intros j Hj. cbn [w_dst w_set_dst].
+      apply writeRawPointer_wrote in EWB; [|lia].
+      assert (Hjr : ns <= j < nd).
+      { apply in_app_or in Hj. destruct Hj as [Hj|[<-|[]]]; [apply (ZA j Hj)|lia]. }
+      split; [exact Hjr|].
+      rewrite (PA j) by lia. rewrite (PA (ns + k0)) in EWB by lia.
+      destruct (Z.eq_dec j (ns + k0)) as [->|Ne].
+      + pose proof (wrote_sub_same _ _ _ _ _ EWB) as SB. change (zlen (le_encode 8 0)) with 8 in SB.
+        destruct EWB as (X1 & X2 & _ & _ & _ & X6 & _). change (zlen (le_encode 8 0)) with 8 in X2.
+        unfold readRawPointer, readUintN. rewrite slice_in_range by lia. rewrite SB. reflexivity.
+      + apply in_app_or in Hj. destruct Hj as [Hj|[Hj|[]]]; [|lia].
+        destruct (ZA j Hj) as [_ Z0]. rewrite (PA j) in Z0 by lia. rewrite <- Z0.
+        unfold readRawPointer. eapply wrote_readUintN_other; [exact EWB|lia|lia|].
+        right. change (zlen (le_encode 8 0)) with 8. lia.
+    - split; [exact I2|]. intros j []. }
+  destruct JF as [[GF SF] ZF]. cbn [app] in ZF.
+  destruct GF as (KF & IF & _ & SrcF).
+  split; [exact KF|]. split; [exact IF|]. split; [exact SrcF|]. split.
+  - intros j Hj. apply ZF. apply in_map_iff. exists (j - ns). split; [lia|].
+    change (iota (Z.to_nat (nd - ns))) with (zrange (Z.to_nat (nd - ns))). apply in_zrange. lia.
+  - pose proof (proj1 KF seg ltac:(lia)) as LF. fold m in LF.
+    rewrite slice_in_range by lia. rewrite SF. reflexivity.
 Qed.
